@@ -460,6 +460,15 @@ def _same_arg(a, b):
     return a == b
 
 
+def _canon_seeded(world, value):
+    """Canonical form of a returned value.  A returned *shape* is canonicalised by reading
+    its properties, some of which call the solver: both sides of a comparison are read
+    under the same RNG seeds (and from a deep copy, so that reading cannot perturb the
+    object under test)."""
+    with world.step(12, 12, use_fs=False):
+        return observe.canon(copy.deepcopy(value))
+
+
 def observe_clone(world, obj, probes):
     with world.step(9, 9, use_fs=False):
         clone = copy.deepcopy(obj)
@@ -626,6 +635,24 @@ def execute(spec, world):
             # drift since the start: one allowance of last-digit rounding per operation
             d = observe.diff_unchanged(snap0, snap1, nbase=probes["n_base"],
                                        skip=skip0 | skip1 | skip_q, ops=si - k0 + 1)
+        if d and not observe.geometry_bitwise_same(snap_prev, snap1) and \
+                hasattr(obj, "vertices"):
+            # the operation moved the shape and moved it back (geometry changed in the last
+            # digits, which the property allows): an observable that amplifies last-digit
+            # noise - arccos at +-1 between nearly coplanar neighbours, borderline existence
+            # tests - is not evidence of a side effect.  Conditioning guard as in C03: two
+            # reference models that differ in the last bits must agree on it themselves.
+            try:
+                tracked = {"faces_are_convex": (base or {}).get("faces_are_convex", True)}
+                with world.step(9, 9, use_fs=False):
+                    m1 = observe.snapshot(history.fresh(obj, tracked), probes)
+                    m2 = observe.snapshot(history.jittered(obj, tracked), probes)
+                shaky = {k for k, _w in observe.diff_unchanged(m1, m2, nbase=probes["n_base"])}
+            except Exception:  # noqa: BLE001 - no model, no excuse
+                shaky = set()
+            kept = [x for x in d if x[0] not in shaky]
+            C["ill_conditioned_skips"] += len(d) - len(kept)
+            d = kept
         strict = None
         if not d and observe.geometry_bitwise_same(snap_prev, snap1):
             # the property allows last-digit rounding "for operations that internally move
@@ -665,8 +692,8 @@ def execute(spec, world):
                     ctx.nbase = 0
                     # canonical forms are taken from deep copies: reading a returned live
                     # inner shape must not itself perturb the object under test
-                    why = observe._cmp_value(st["name"], observe.canon(copy.deepcopy(value)),
-                                             observe.canon(copy.deepcopy(value2)), ctx)
+                    why = observe._cmp_value(st["name"], _canon_seeded(world, value),
+                                             _canon_seeded(world, value2), ctx)
                     if why:
                         res["violations"].append(violation(
                             PROP, "repeat-differs", "%s returned a different answer when "
@@ -715,8 +742,8 @@ def execute(spec, world):
                 if not (solverish and (skip_q or skip_h)):
                     ctx = observe.Ctx(L, 1e-6 if solverish else 1e-9, 1e-12)
                     ctx.nbase = 0
-                    why = observe._cmp_value(st["name"], observe.canon(copy.deepcopy(value)),
-                                             observe.canon(copy.deepcopy(value3)), ctx)
+                    why = observe._cmp_value(st["name"], _canon_seeded(world, value),
+                                             _canon_seeded(world, value3), ctx)
                     if why:
                         res["violations"].append(violation(
                             PROP, "history-dependent-answer", "%s answered differently from a "
